@@ -759,7 +759,7 @@ def run(sf, spec):
     first = S.first()
     S.current = first
     S.sems[first].release()
-    if not S.done_lock.acquire(True, spec.get("wall", 100.0)):
+    if not S.done_lock.acquire(True, spec.get("wall", 240.0)):
         S.outcome = "wall-timeout"
     if S.outcome == "ok":
         for t in threads:
